@@ -84,9 +84,9 @@ var bceTable = map[string]bceRow{
 	"s3api/debuglogger:prettyPrintXML":                    {0, 1, whyStd},
 	"s3api/debuglogger:printWrappedLine":                  {0, 1, "debug logging only"},
 	"s3api/debuglogger:wrapText":                          {0, 1, "debug logging only; text[:width] inside len(text) > width"},
-	"s3api/middlewares:AclParser":                         {2, 0, whyRoute + ": strings.Split(path, \"/\") of a path starting with '/' has >= 2 elements"},
+	"s3api/middlewares:AclParser":                         {1, 0, whyRoute + ": strings.Split(path, \"/\") of a path starting with '/' has >= 2 elements"},
 	"s3api/middlewares:DecodeURL":                         {0, 1, whyStd},
-	"s3api/middlewares:VerifyV4Signature":                 {1, 2, "date[:8] after time.Parse(\"20060102T150405Z\") succeeded (16 characters); " + whyStd},
+	"s3api/middlewares:VerifyV4Signature":                 {1, 1, "date[:8] after time.Parse(\"20060102T150405Z\") succeeded (16 characters); " + whyStd},
 	"s3api/utils:ChunkReader.Read":                        {0, 3, whyChunk},
 	"s3api/utils:ChunkReader.checkSignature":              {1, 0, whyStd},
 	"s3api/utils:ChunkReader.getChunkStringToSign":        {1, 0, whyStd},
@@ -165,6 +165,7 @@ func runBCE(p *Program) (map[string][]bceSite, error) {
 	cmd.Stdout = &out
 	err := cmd.Run()
 	sites := map[string][]bceSite{}
+	dedup := map[string]bool{}
 	n := 0
 	sc := bufio.NewScanner(&out)
 	sc.Buffer(make([]byte, 1<<20), 1<<20)
@@ -178,6 +179,12 @@ func runBCE(p *Program) (map[string][]bceSite, error) {
 			continue
 		}
 		file := strings.TrimPrefix(parts[0], "./")
+		if strings.HasPrefix(file, "/") {
+			if !strings.HasPrefix(file, p.Dir+"/") {
+				continue // generic library code instantiated in this build
+			}
+			file = strings.TrimPrefix(file, p.Dir+"/")
+		}
 		if strings.HasPrefix(file, "tests/") || strings.HasPrefix(file, "cmd/") || strings.HasPrefix(file, "backend/azure/") || strings.HasPrefix(file, "<") {
 			continue
 		}
@@ -187,6 +194,13 @@ func runBCE(p *Program) (map[string][]bceSite, error) {
 		if strings.Contains(l, "IsSliceInBounds") {
 			kind = "IsSliceInBounds"
 		}
+		// the compiler reports a check once per copy of the code (a small function is also compiled
+		// inlined into its callers): one position is one access
+		dk := file + ":" + parts[1] + ":" + parts[2] + ":" + kind
+		if dedup[dk] {
+			continue
+		}
+		dedup[dk] = true
 		fn := enclosingFunc(p, file, line)
 		sites[fn] = append(sites[fn], bceSite{file, line, kind, ""})
 		n++
@@ -258,32 +272,151 @@ func runC20(p *Program, r *Report) {
 		if err != nil {
 			broken("R-C20-1: %v", err)
 		}
+		// source lines of the module that contain an index or slice operation of their own (the compiler also
+		// reports checks inside library code it inlined at a call site, e.g. strings.CutSuffix: those are the
+		// library's, not this function's)
+		own := map[string]bool{}
+		for _, sp := range p.SSAPkg {
+			for _, f := range pkgFuncs(p.SSA, sp) {
+				for _, b := range f.Blocks {
+					for _, in := range b.Instrs {
+						switch x := in.(type) {
+						case *ssa.IndexAddr, *ssa.Index, *ssa.Slice, *ssa.Lookup:
+							if lk, isLk := x.(*ssa.Lookup); isLk {
+								if _, isMap := lk.X.Type().Underlying().(*types.Map); isMap {
+									continue // map lookups have no bounds
+								}
+							}
+							if in.Pos().IsValid() {
+								ps := p.Fset.Position(in.Pos())
+								own[strings.TrimPrefix(ps.Filename, p.Dir+"/")+":"+itoa(ps.Line)] = true
+							}
+						}
+					}
+				}
+			}
+		}
+		// lines that call a function of the module: an unproven access the compiler reports there without an
+		// index operation of the line's own is the inlined copy of that callee's access (counted at the callee)
+		callsModule := map[string][]string{}
+		for _, sp := range p.SSAPkg {
+			for _, f := range pkgFuncs(p.SSA, sp) {
+				for _, b := range f.Blocks {
+					for _, in := range b.Instrs {
+						c, ok := in.(ssa.CallInstruction)
+						if !ok || !in.Pos().IsValid() {
+							continue
+						}
+						if g := c.Common().StaticCallee(); g != nil && g.Pkg != nil && strings.HasPrefix(g.Pkg.Pkg.Path(), modPath) {
+							ps := p.Fset.Position(in.Pos())
+							k := strings.TrimPrefix(ps.Filename, p.Dir+"/") + ":" + itoa(ps.Line)
+							gp := p.Fset.Position(g.Pos())
+							callsModule[k] = append(callsModule[k], enclosingFunc(p, strings.TrimPrefix(gp.Filename, p.Dir+"/"), gp.Line))
+						}
+					}
+				}
+			}
+		}
+		for _, ic := range p.InlinedCalls {
+			if !ic.Pos.IsValid() {
+				continue
+			}
+			ps := p.Fset.Position(ic.Pos)
+			k := strings.TrimPrefix(ps.Filename, p.Dir+"/") + ":" + itoa(ps.Line)
+			gp := p.Fset.Position(ic.Callee.Pos())
+			callsModule[k] = append(callsModule[k], enclosingFunc(p, strings.TrimPrefix(gp.Filename, p.Dir+"/"), gp.Line))
+		}
 		fns := make([]string, 0, len(sites))
 		for fn := range sites {
 			fns = append(fns, fn)
 		}
 		sort.Strings(fns)
+		// Per function against the reviewed table; what exceeds it is then balanced per package against
+		// what disappeared from reviewed functions of the same package: extracting a block into a helper
+		// (or inlining one) moves an unproven access to another function without adding one.
+		pkgOf := func(fn string) string { return fn[:strings.LastIndex(fn, ":")] }
+		excess := map[string][]string{}
+		excessN := map[string]int{}
+		slack := map[string]int{}
+		seenFn := map[string]bool{}
 		for _, fn := range fns {
+			seenFn[fn] = true
 			ss := sites[fn]
 			inb, slb := 0, 0
-			var where []string
+			var where, whereOwn []string
+			ownN, copies := 0, 0
 			for _, s := range ss {
+				if k := fmt.Sprintf("%s:%d", s.file, s.line); !own[k] {
+					for _, callee := range callsModule[k] {
+						if len(sites[callee]) > 0 {
+							copies++
+							break
+						}
+					}
+				}
 				if s.kind == "IsInBounds" {
 					inb++
 				} else {
 					slb++
 				}
 				where = append(where, fmt.Sprintf("%s:%d(%s)", s.file, s.line, s.kind))
+				if own[fmt.Sprintf("%s:%d", s.file, s.line)] {
+					ownN++
+					whereOwn = append(whereOwn, fmt.Sprintf("%s:%d(%s)", s.file, s.line, s.kind))
+				}
 			}
 			row, ok := bceTable[fn]
 			pos := fmt.Sprintf("%s:%d", ss[0].file, ss[0].line)
+			allowed := row.inb + row.slb
 			switch {
-			case !ok:
-				r.Viol("R-C20-1", "bce:"+fn, pos, "function "+fn+" has "+itoa(len(ss))+" index/slice operation(s) the compiler cannot prove in bounds and no reviewed invariant: "+strings.Join(where, ", "))
-			case inb > row.inb || slb > row.slb:
-				r.Viol("R-C20-1", "bce:"+fn, pos, fmt.Sprintf("function %s now has %d IsInBounds / %d IsSliceInBounds unproven accesses, reviewed %d / %d: a length or emptiness test was dropped or a new unchecked access added; sites: %s", fn, inb, slb, row.inb, row.slb, strings.Join(where, ", ")))
+			case ok && inb <= row.inb && slb <= row.slb:
+				r.Ok("R-C20-1", "bce:"+fn, pos, fmt.Sprintf("%d/%d unproven accesses (%d written in this function), reviewed %d/%d: %s", inb, slb, ownN, row.inb, row.slb, row.why))
+				if eff := len(ss) - copies; allowed > eff {
+					slack[pkgOf(fn)] += allowed - eff
+				}
+				if os.Getenv("VGW_DEBUG") != "" && allowed != len(ss)-copies {
+					fmt.Fprintf(os.Stderr, "bce slack fn %s allowed %d/%d found %d/%d own %d: %v\n", fn, row.inb, row.slb, inb, slb, ownN, where)
+				}
 			default:
-				r.Ok("R-C20-1", "bce:"+fn, pos, fmt.Sprintf("%d/%d unproven accesses, reviewed %d/%d: %s", inb, slb, row.inb, row.slb, row.why))
+				// only accesses written in this function count; the rest is inlined library code
+				over := ownN - allowed
+				if !ok {
+					over = ownN
+				}
+				if over <= 0 {
+					r.Ok("R-C20-1", "bce:"+fn, pos, fmt.Sprintf("%d unproven accesses, %d of them in inlined library code; reviewed %d", len(ss), len(ss)-ownN, allowed))
+					continue
+				}
+				excessN[pkgOf(fn)] += over
+				excess[pkgOf(fn)] = append(excess[pkgOf(fn)], fn+"\x00"+pos+"\x00"+fmt.Sprintf("%d unproven access(es) written in this function, reviewed %d: %s", ownN, allowed, strings.Join(whereOwn, ", ")))
+			}
+		}
+		for fn, row := range bceTable {
+			if !seenFn[fn] {
+				slack[pkgOf(fn)] += row.inb + row.slb // the reviewed function has no unproven access any more (or is gone)
+			}
+		}
+		if os.Getenv("VGW_DEBUG") != "" {
+			for pk, v := range slack {
+				if v != 0 {
+					fmt.Fprintf(os.Stderr, "bce slack %s = %d\n", pk, v)
+				}
+			}
+		}
+		var pks []string
+		for pk := range excessN {
+			pks = append(pks, pk)
+		}
+		sort.Strings(pks)
+		for _, pk := range pks {
+			if excessN[pk] <= slack[pk] {
+				r.Ok("R-C20-1", "bce-moved:"+pk, pk, fmt.Sprintf("%d unproven accesses now in unreviewed functions, %d disappeared from reviewed functions of the package: code moved, none added", excessN[pk], slack[pk]))
+				continue
+			}
+			sort.Strings(excess[pk])
+			for _, e := range excess[pk] {
+				parts := strings.SplitN(e, "\x00", 3)
+				r.Viol("R-C20-1", "bce:"+parts[0], parts[1], fmt.Sprintf("function %s: %s; package %s has %d unproven index/slice operation(s) beyond the reviewed table and only %d disappeared from its reviewed functions: a length or emptiness test was dropped or a new unchecked access added", parts[0], parts[2], pk, excessN[pk], slack[pk]))
 			}
 		}
 	}
@@ -654,8 +787,11 @@ func c20Locals(p *Program, r *Report) {
 	excluded := map[string]bool{}
 	for _, ce := range condEdgesOf(acl) {
 		if c, ok := ce.cond.(*ssa.Call); ok && calleeName(c) == "(*github.com/valyala/fasthttp.Args).Has" {
-			if s, ok := constString(callArgs(c)[0]); ok {
-				excluded[s] = true
+			// a constant, or an element of a constant table the test loops over
+			if ss, ok := stringSet(p, callArgs(c)[0]); ok {
+				for _, s := range ss {
+					excluded[s] = true
+				}
 			}
 		}
 	}
